@@ -134,7 +134,7 @@ def run(ctx):
     model_check(ctx, "c30_j1a", NS=2, NI=2, L=2, max_muts=0, anymask=True)
     model_check(ctx, "c30_j1b", NS=3, NI=2, L=2, max_muts=0, tree_filter="nodangling" if q else "any")
     if not q:
-        model_check(ctx, "c30_j1c", NS=2, NI=2, L=3, max_muts=0, anymask=True)
+        model_check(ctx, "c30_j1c", NS=2, NI=2, L=3, max_muts=0)
         model_check(ctx, "c30_j1d", NS=2, NI=3, L=2, max_muts=0)
         model_check(ctx, "c30_j1e", NS=1, NI=2, L=4, max_muts=0, anymask=True)
     insts = generate(ctx, "c30_j2a", NS=2, NI=2, L=2, max_muts=1 if q else 2, tree_filter="completeunary")
@@ -142,13 +142,13 @@ def run(ctx):
     insts += generate(ctx, "c30_j2c", NS=2, NI=2, L=2, max_muts=0, anymask=True)
     if not q:
         insts += generate(ctx, "c30_j2d", NS=2, NI=3, L=2, max_muts=1, tree_filter="completeunary")
-    cap = 6000 if q else 80000
+    cap = 6000 if q else 30000
     ctx.exhaustive = len(insts) <= cap
     if len(insts) > cap:
         insts = ctx.rng.sample(insts, cap)
-    insts += generate(ctx, "c30_j2s", simulate=400 if q else 8000, NS=3, NI=3, L=3, max_muts=2,
+    insts += generate(ctx, "c30_j2s", simulate=400 if q else 4000, NS=3, NI=2, L=3, max_muts=2,
                       tree_filter="completeunary")
-    insts += generate(ctx, "c30_j2t", simulate=400 if q else 8000, NS=3, NI=3, L=3, max_muts=1, anymask=True)
+    insts += generate(ctx, "c30_j2t", simulate=400 if q else 4000, NS=3, NI=2, L=4, max_muts=1, anymask=True)
     for inst in insts:
         replay_one(ctx, inst)
         ctx.traces += 1
